@@ -7,12 +7,15 @@
 package main
 
 import (
+	"encoding/json"
 	"flag"
 	"fmt"
+	"os"
+	"path/filepath"
+	"runtime"
 	"runtime/debug"
 	"sort"
 	"strings"
-	"sync"
 	"time"
 
 	"github.com/gofiber/fiber/v3"
@@ -189,7 +192,7 @@ type bounds struct {
 func generate(quick bool) ([]*patternX, bounds) {
 	bd := bounds{A3n: 5, A4n: 5, A5n: 4, Bn: 4, B2n: 4, Cn: 4, Un: 4, BLits: []string{"", "a", "ab", "A"}}
 	if quick {
-		bd = bounds{A3n: 4, A4n: 3, A5n: 3, Bn: 3, B2n: 3, Cn: 3, Un: 3, BLits: []string{"", "a"}}
+		bd = bounds{A3n: 4, A4n: 3, A5n: 3, Bn: 3, B2n: 3, Cn: 3, Un: 3, BLits: []string{"", "a", "ab", "A"}}
 	}
 	var pats []*patternX
 	seen := map[string]bool{}
@@ -461,10 +464,12 @@ func derivedPaths(p *patternX) []string {
 // violations with a deterministic example (smallest case key wins)
 
 type vrec struct {
-	key      uint64
-	count    int64
-	what     string
-	cs, o, e any
+	Key   uint64 `json:"key"`
+	Count int64  `json:"count"`
+	What  string `json:"what"`
+	Case  any    `json:"case"`
+	Obs   any    `json:"observed"`
+	Exp   any    `json:"expected"`
 }
 
 type vset map[string]*vrec
@@ -473,23 +478,23 @@ func (vs vset) add(sig string, key uint64, what string, mk func() (cs, o, e any)
 	v, ok := vs[sig]
 	if !ok {
 		cs, o, e := mk()
-		vs[sig] = &vrec{key: key, count: 1, what: what, cs: cs, o: o, e: e}
+		vs[sig] = &vrec{Key: key, Count: 1, What: what, Case: cs, Obs: o, Exp: e}
 		return
 	}
-	v.count++
-	if key < v.key {
-		v.key = key
-		v.what = what
-		v.cs, v.o, v.e = mk()
+	v.Count++
+	if key < v.Key {
+		v.Key = key
+		v.What = what
+		v.Case, v.Obs, v.Exp = mk()
 	}
 }
 
 func (vs vset) merge(o vset) {
 	for s, v := range o {
 		if w, ok := vs[s]; ok {
-			w.count += v.count
-			if v.key < w.key {
-				w.key, w.what, w.cs, w.o, w.e = v.key, v.what, v.cs, v.o, v.e
+			w.Count += v.Count
+			if v.Key < w.Key {
+				w.Key, w.What, w.Case, w.Obs, w.Exp = v.Key, v.What, v.Case, v.Obs, v.Exp
 			}
 		} else {
 			vs[s] = v
@@ -563,12 +568,59 @@ func (e *exec) violate(sig, what, seen string, observed map[string]any, expected
 	e.vs.add(sig, e.key(), what, func() (any, any, any) { return e.caseDoc(seenC), observed, expected })
 }
 
-// nextKind names what follows parameter token ti in the pattern.
-func (e *exec) nextKind(ti int) string {
+// nextClass names what follows parameter token ti in the pattern: end, param, lit1 (a literal of
+// one character), litN (a longer literal).
+func (e *exec) nextClass(ti int) string {
 	if ti+1 >= len(e.p.Toks) {
 		return "end"
 	}
-	return e.p.Toks[ti+1].kindName()
+	n := e.p.Toks[ti+1]
+	switch {
+	case n.isParam():
+		return "param"
+	case len(n.Lit) == 1:
+		return "lit1"
+	}
+	return "litN"
+}
+
+func bareKind(t token) string {
+	switch t.Kind {
+	case kLit:
+		return "literal"
+	case kStar:
+		return "*"
+	case kPlus:
+		return "+"
+	}
+	return "named"
+}
+
+// divergence names the token of the filled pattern in which it first differs from the request path.
+func (e *exec) divergence(vals []string, path string) string {
+	fold := func(s string) string {
+		if !e.cfg.CaseSensitive {
+			return lower(s)
+		}
+		return s
+	}
+	path = fold(path)
+	pos, k := 0, 0
+	prev := "start"
+	for _, t := range e.p.Toks {
+		part := t.Lit
+		if t.isParam() {
+			part = vals[k]
+			k++
+		}
+		part = fold(part)
+		if !strings.HasPrefix(path[min(pos, len(path)):], part) {
+			return "diverges-at=" + bareKind(t) + " after=" + prev
+		}
+		pos += len(part)
+		prev = t.kindName()
+	}
+	return "diverges-at=past-end after=" + prev
 }
 
 // judge is the oracle; it runs inside the handler.
@@ -604,15 +656,17 @@ func (e *exec) judge(c fiber.Ctx) {
 		m["pattern_filled_with_params"] = p.fill(vals)
 		return m
 	}
-	shapeIfOther := func() string {
-		if pclass() == "other" {
-			return " shape=[" + p.skeleton() + "]"
+	// sig builds the signature: requests that spell the pattern's own text are one class per clause
+	// (whatever the pattern); other requests are classified by the detail of the failing clause.
+	sig := func(clause, detail string) string {
+		if pclass() != "other" {
+			return "handler-ran-on-own-pattern-text clause=" + clause + " reg=" + reg + " path=" + pclass()
 		}
-		return ""
+		return clause + " " + detail + " reg=" + reg + " path=other"
 	}
 	// (4) Route().Path is the registered pattern
 	if rp := c.Route().Path; rp != p.Text {
-		e.violate("route-path-differs reg="+reg+" path="+pclass()+shapeIfOther(), "Route().Path inside the handler is not the registered pattern", path, obs(), p.Text)
+		e.violate(sig("route-path-differs", "shape=["+p.skeleton()+"]"), "Route().Path inside the handler is not the registered pattern", path, obs(), p.Text)
 	}
 	// (2) and (3) per value
 	k := 0
@@ -626,7 +680,7 @@ func (e *exec) judge(c fiber.Ctx) {
 		if v == "" {
 			empties = true
 			if !t.Optional {
-				e.violate(fmt.Sprintf("required-param-empty param=%s next=%s reg=%s path=%s", t.kindName(), e.nextKind(ti), reg, pclass()),
+				e.violate(sig("required-param-empty", "param="+bareKind(t)+" next="+e.nextClass(ti)),
 					"a named or '+' parameter that is not optional was reported empty", path, obs(), "non-empty value for "+t.Name)
 			} else if len(t.Cons) > 0 {
 				e.l.Add("unspecified_skipped", 1) // constraint on an absent optional value: the statement is silent
@@ -634,17 +688,14 @@ func (e *exec) judge(c fiber.Ctx) {
 			continue
 		}
 		if t.Kind == kNamed && strings.IndexByte(v, '/') >= 0 {
-			e.violate(fmt.Sprintf("named-param-spans-slash param=%s next=%s reg=%s path=%s", t.kindName(), e.nextKind(ti), reg, pclass()),
+			e.violate(sig("named-param-spans-slash", "next="+e.nextClass(ti)),
 				"a named parameter value contains '/'", path, obs(), "no '/' inside "+t.Name)
 		}
 		for _, cd := range t.Cons {
 			switch cd.Ref(v) {
 			case vInvalid:
-				sig := fmt.Sprintf("constraint-violating-value-reached-handler constraint=%s reg=%s path=%s", cd.Name, reg, pclass())
-				if pclass() == "other" {
-					sig += fmt.Sprintf(" param=%s next=%s", t.kindName(), e.nextKind(ti))
-				}
-				e.violate(sig, "the handler ran although the captured value violates the declared constraint "+cd.Text, path, obs(),
+				sg := sig("constraint-violating-value-reached-handler", "constraint="+cd.Name)
+				e.violate(sg, "the handler ran although the captured value violates the declared constraint "+cd.Text, path, obs(),
 					"404 (value "+fmt.Sprintf("%q", v)+" is not a valid "+cd.Text+")")
 			case vUnspec:
 				e.l.Add("unspecified_skipped", 1)
@@ -656,7 +707,7 @@ func (e *exec) judge(c fiber.Ctx) {
 	// (1) reconstruction
 	cls := recon(p.fill(vals), path, e.cfg, e.use)
 	if strings.HasPrefix(cls, "MISMATCH") {
-		e.violate(fmt.Sprintf("params-do-not-reproduce-path kind=%s reg=%s path=%s%s", strings.TrimPrefix(cls, "MISMATCH "), reg, pclass(), shapeIfOther()),
+		e.violate(sig("params-do-not-reproduce-path", "kind="+strings.TrimPrefix(cls, "MISMATCH ")+" "+e.divergence(vals, path)),
 			"filling the pattern with the values reported by Params does not give the request path", path, obs(), "pattern filled with Params == "+path+" (modulo configured case folding / optional trailing slashes)")
 		cls = "mismatch"
 	}
@@ -800,8 +851,8 @@ func runPattern(pi int, p *patternX, l *core.Local, vs vset, sampleEvery int) {
 func main() {
 	only := flag.String("only", "", "debug: run only patterns whose text equals this")
 	list := flag.Bool("list", false, "debug: print the patterns and exit")
+	limitFlag := flag.Duration("limit", 0, "debug: override the internal wall-clock cap")
 	r := core.Start("C02")
-	debug.SetGCPercent(400)
 	pats, bd := generate(r.Quick())
 	if *only != "" {
 		var f []*patternX
@@ -815,7 +866,7 @@ func main() {
 	fam := map[string]int{}
 	for _, p := range pats {
 		fam[p.Family]++
-		genericPaths(p.Sigma, p.GenN) // fill the cache before going parallel
+
 	}
 	if *list {
 		for _, p := range pats {
@@ -824,28 +875,82 @@ func main() {
 		fmt.Println(fam)
 		return
 	}
-	limit := 25 * time.Minute
+	limit := 14 * time.Minute
 	if r.Quick() {
-		limit = 3 * time.Minute
+		limit = 150 * time.Second
 	}
-	deadline := r.Start.Add(limit)
+	if *limitFlag > 0 {
+		limit = *limitFlag
+	}
+	if r.IsWorker() {
+		// One single-threaded process per shard: what Params reports after a failed match attempt
+		// depends on the pooled context (ctx.values survives from the previous request), so the
+		// sync.Pool must hand back the same context every time (GOMAXPROCS=1).
+		debug.SetGCPercent(400)
+		deadline := r.Start.Add(limit)
+		l := core.NewLocal()
+		vs := vset{}
+		sampleEvery := 0
+		if r.Worker == 0 {
+			sampleEvery = 4001
+		}
+		for i := range pats {
+			if !r.Shard(i) {
+				continue
+			}
+			if time.Now().After(deadline) || r.Expired() {
+				r.Cap("wall-clock limit reached before all patterns were explored")
+				l.Add("patterns_skipped_by_cap", 1)
+				continue
+			}
+			runPattern(i, pats[i], l, vs, sampleEvery)
+		}
+		r.Merge(l.P)
+		b, err := json.Marshal(vs)
+		if err == nil {
+			err = os.WriteFile(r.Out+".viol", b, 0o644)
+		}
+		if err != nil {
+			core.Fatal("worker %d: cannot write violations: %v", r.Worker, err)
+		}
+		r.FinishWorker()
+	}
+	nw := runtime.NumCPU()
+	if nw > 16 {
+		nw = 16
+	}
+	if nw > len(pats) {
+		nw = len(pats)
+	}
+	var extra []string
+	if *only != "" {
+		extra = append(extra, "-only", *only)
+	}
+	if *limitFlag > 0 {
+		extra = append(extra, "-limit", limitFlag.String())
+	}
+	partDir := filepath.Join(core.VerifDir, ".build", "parts", r.Prop)
+	for i := 0; i < nw; i++ {
+		_ = os.Remove(filepath.Join(partDir, fmt.Sprintf("part%d.json.viol", i)))
+	}
+	if crashed := r.SpawnWorkers(nw, []string{"GOMAXPROCS=1"}, extra...); len(crashed) > 0 {
+		core.Fatal("workers crashed: %v", crashed)
+	}
+	// violations: merged here (not by core) so that the example kept per signature is the smallest case
 	all := vset{}
-	var mu sync.Mutex
-	sampleEvery := 4001
-	r.Parallel(len(pats), func(i int, l *core.Local) {
-		if time.Now().After(deadline) || r.Expired() {
-			r.Cap("wall-clock limit reached before all patterns were explored")
-			l.Add("patterns_skipped_by_cap", 1)
-			return
+	for i := 0; i < nw; i++ {
+		f := filepath.Join(partDir, fmt.Sprintf("part%d.json.viol", i))
+		b, err := os.ReadFile(f)
+		if err != nil {
+			core.Fatal("missing violation file of worker %d: %v", i, err)
 		}
 		vs := vset{}
-		runPattern(i, pats[i], l, vs, sampleEvery)
-		if len(vs) > 0 {
-			mu.Lock()
-			all.merge(vs)
-			mu.Unlock()
+		if err := json.Unmarshal(b, &vs); err != nil {
+			core.Fatal("bad violation file of worker %d: %v", i, err)
 		}
-	})
+		all.merge(vs)
+		_ = os.Remove(f)
+	}
 	sigs := make([]string, 0, len(all))
 	for s := range all {
 		sigs = append(sigs, s)
@@ -853,8 +958,8 @@ func main() {
 	sort.Strings(sigs)
 	for _, s := range sigs {
 		v := all[s]
-		r.Violate(s, v.what, v.cs, v.o, v.e)
-		r.P.Violations[s].Count = v.count
+		r.Violate(s, v.What, v.Case, v.Obs, v.Exp)
+		r.P.Violations[s].Count = v.Count
 	}
 	famKeys := make([]string, 0, len(fam))
 	for k := range fam {
@@ -880,7 +985,7 @@ func main() {
 			"evaluations":         r.P.Counters["evaluations"],
 			"distinct_nontrivial": r.P.Counters["nontrivial"],
 			"unspecified_skipped": r.P.Counters["unspecified_skipped"],
-			"rule": "one evaluation = one GET request to a fresh single-route app: every pattern of the token grammar (families A3/A4/A5 unconstrained shapes, B one constrained parameter at every named position, B2 two constrained parameters, C escaped characters, U percent-encoded alphabet) x registration {app.Get, app.Use} x 8 configs {CaseSensitive,StrictRouting,UnescapePath} x every request path of the family alphabet ('/' followed by <= n symbols) plus the pattern-derived paths (own text raw/unescaped/upper/lower/'?'->%3F, every one-character deletion and one-symbol insertion of it, every instantiation of the pattern with per-parameter value menus incl. valid/invalid/unspecified constraint exemplars and the parameter's own spelling). All (pattern, registration, config, path) tuples are distinct by construction. A case is non-trivial when the handler ran (the in-handler oracle was evaluated) or when the reference classified the request as carrying only constraint-violating values (404 clause evaluated); both are counted in the loop.",
+			"rule":                "one evaluation = one GET request to a fresh single-route app: every pattern of the token grammar (families A3/A4/A5 unconstrained shapes, B one constrained parameter at every named position, B2 two constrained parameters, C escaped characters, U percent-encoded alphabet) x registration {app.Get, app.Use} x 8 configs {CaseSensitive,StrictRouting,UnescapePath} x every request path of the family alphabet ('/' followed by <= n symbols) plus the pattern-derived paths (own text raw/unescaped/upper/lower/'?'->%3F, every one-character deletion and one-symbol insertion of it, every instantiation of the pattern with per-parameter value menus incl. valid/invalid/unspecified constraint exemplars and the parameter's own spelling). All (pattern, registration, config, path) tuples are distinct by construction. A case is non-trivial when the handler ran (the in-handler oracle was evaluated) or when the reference classified the request as carrying only constraint-violating values (404 clause evaluated); both are counted in the loop.",
 			"bounds": map[string]any{
 				"tier":                 r.Tier,
 				"patterns":             len(pats),
@@ -895,7 +1000,7 @@ func main() {
 			},
 		},
 		Assumptions: []string{
-			"handler-level drive: app.Handler() on a fake connection (fx.CallInto for the first request of each app, later requests reuse that RequestCtx like keep-alive requests)",
+			"handler-level drive: app.Handler() on a fake connection (fx.CallInto for the first request of each app, later requests reuse that RequestCtx like keep-alive requests); 16 single-threaded worker processes (GOMAXPROCS=1) so that the pooled fiber context, whose parameter values survive failed match attempts, is the same object for every request of an app",
 			"the request path is what the handler sees through Path() (PathOriginal, percent-decoded when UnescapePath); fasthttp's URI splitting/decoding is not re-checked",
 			"the harness reads patterns by its own token list (never fiber's parser); per-constraint references are three-valued and written from docs/guide/routing.md; custom constraints are specified by their own Execute",
 			"patterns without parameters are not judged (the statement speaks about parameterised patterns)",
